@@ -411,6 +411,7 @@ class C11:
     @staticmethod
     def execute(run):
         plan = run.plan
+        run.stats["runs:" + ("ppo:" if plan["scenario"] == "ppo" else "") + _scope(plan)] += 1
         if plan["scenario"] == "ppo":
             return _execute_ppo(run)
         kind = plan["kind"]
